@@ -80,3 +80,19 @@ Proof.
   split; [apply FMapFacts.wf_fmul|]. split; [apply FMapFacts.wf_empty|].
   split; [split; simpl; intros; congruence|right; reflexivity].
 Qed.
+
+(* prefixes of different bases, over the reals: the float exponent the code computes denotes exactly the
+   product / quotient / power of the two prefix values (the 1e-9 clause is then rounding only) *)
+From Coq Require Import Reals.
+From Measured Require Import Proofs.MixedBaseFacts.
+Theorem C02_mixed_base_mul : forall b1 e1 b2 e2 : R, (0 < b1 -> b1 <> 1 -> 0 < b2 ->
+  Rpower b1 (mixed_mul_exponent b1 e1 b2 e2) = Rpower b1 e1 * Rpower b2 e2)%R.
+Proof. exact mixed_mul_exact. Qed.
+Print Assumptions C02_mixed_base_mul.
+Theorem C02_mixed_base_div : forall b1 e1 b2 e2 : R, (0 < b1 -> b1 <> 1 -> 0 < b2 ->
+  Rpower b1 (mixed_div_exponent b1 e1 b2 e2) = Rpower b1 e1 / Rpower b2 e2)%R.
+Proof. exact mixed_div_exact. Qed.
+Print Assumptions C02_mixed_base_div.
+Theorem C02_mixed_base_pow : forall b e n : R, (0 < b -> Rpower (Rpower b e) n = Rpower b (e * n))%R.
+Proof. exact mixed_pow_exact. Qed.
+Print Assumptions C02_mixed_base_pow.
